@@ -57,7 +57,9 @@ class Smooth(nn.Module):
             return 0.6 + 0.3 * torch.sin(self.a * y + self.c + t)                 # (B, d)
         if self.nt == "scalar":
             return (0.5 * torch.tanh(y @ self.Ag.t() + self.bg) + 0.2 * torch.cos(t)).unsqueeze(-1)  # (B, d, 1)
-        return (self.M0 + torch.sin(t) * self.M1).unsqueeze(0).expand(y.size(0), self.d, self.m)     # (B, d, m)
+        # state-independent, but NOT the same matrix for every batch element (per-sample noise levels)
+        lev = 1.0 + 0.25 * torch.arange(y.size(0), dtype=y.dtype) / max(1, y.size(0))
+        return (self.M0 + torch.sin(t) * self.M1).unsqueeze(0) * lev.view(-1, 1, 1)                  # (B, d, m)
 
     def g(self, t, y):
         g = self.g_special(t, y)
